@@ -3,6 +3,7 @@
 import json, os, re
 ROOT = '/verif/seeded'
 res = json.load(open(os.path.join(ROOT, 'RESULTS.json'))) if os.path.exists(os.path.join(ROOT, 'RESULTS.json')) else {}
+NOTES = json.load(open(os.path.join(ROOT, 'NOTES.json'))) if os.path.exists(os.path.join(ROOT, 'NOTES.json')) else {}
 for d in sorted(os.listdir(ROOT)):
   p = os.path.join(ROOT, d)
   if not os.path.isdir(p) or not os.path.exists(os.path.join(p, 'patch.diff')): continue
@@ -22,6 +23,7 @@ for d in sorted(os.listdir(ROOT)):
       'suite_passed': conf.get('suite_passed'), 'baseline_tests_lost': conf.get('lost'), 'confirmed': conf.get('confirmed')},
     'checks_run': {k: {0: 'exit 0 (missed)', 1: 'exit 1 (VIOLATION reported)', 2: 'exit 2 (inconclusive)', 3: 'patch did not apply'}.get(v, str(v)) for k, v in sorted(r.items())},
     'detected_by': sorted(k for k, v in r.items() if v == 1),
+    'note': NOTES.get(d),
   }
   json.dump(meta, open(os.path.join(p, 'meta.json'), 'w'), indent=1)
 print('meta written')
